@@ -660,3 +660,34 @@ def explore_params_ownership(ctx):
 
 
 OWN_LAWS = ["own parameters"]
+
+
+def ddd_capabilities(ctx):
+    """RFC value types the combined decoder vDDDTypes.from_ical decodes (by interpretation:
+    one text of every form of the type must come back as a value of that type)."""
+    model = ctx.model
+    it = Interp(model)
+    frm = it.getattr(ClassVal(model.cls("prop.vDDDTypes")), "from_ical")
+    forms = {
+        "DATE": [("20200229", lambda v: isinstance(v, DT) and v.kind == "date")],
+        "DATE-TIME": [("20200229T235959", lambda v: isinstance(v, DT) and v.kind == "naive"),
+                      ("20200229T235959Z", lambda v: isinstance(v, DT) and v.kind == "utc")],
+        "TIME": [("235959", lambda v: isinstance(v, TimeVal))],
+        "DURATION": [("P1W", lambda v: isinstance(v, TD)), ("-PT15M", lambda v: isinstance(v, TD))],
+        "PERIOD": [("20200101T000000Z/20200102T000000Z", lambda v: isinstance(v, tuple) and len(v) == 2),
+                   ("20200101T000000/PT1H", lambda v: isinstance(v, tuple) and len(v) == 2)],
+    }
+    caps = set()
+    for typ, cases in forms.items():
+        ok = True
+        for text, good in cases:
+            it.steps = 0
+            try:
+                ok = ok and bool(good(it.call(frm, [text], {})))
+            except AbsRaise:
+                ok = False
+            except Unsupported as e:
+                raise AnalysisError(f"vDDDTypes.from_ical({text!r}) leaves the abstract interface: {e}")
+        if ok:
+            caps.add(typ)
+    return caps
